@@ -12,10 +12,11 @@ SHARDS = {"quick": 8, "thorough": 16}
 TIME_CAP = {"quick": 70, "thorough": 900}
 REQUIRED = ["schemas_generated", "meta_schema_checks", "refs_resolved", "extraction_set_checks_all_refs_false", "extraction_set_checks_all_refs_true",
             "definitions_schema_checks", "recursive_programs", "shared_named_type_programs", "type_name_override_programs", "name_collision_programs",
-            "custom_ref_factory_checks", "cycle_checks", "conversion_schema_checks", "multi_entry_definitions_checks", "multi_entry_collision_checks", "serialization_schemas", "deserialization_schemas"]
+            "custom_ref_factory_checks", "cycle_checks", "conversion_schema_checks", "multi_entry_definitions_checks", "multi_entry_collision_checks", "serialization_schemas", "deserialization_schemas", "discriminated_families", "discriminated_extraction_checks", "discriminator_mapping_refs_checked"]
 RULE = ("C01 program space + std types + dataclasses with type_name overrides (string / None), shared named types (used 1, 2, 3 times), (mutually) recursive classes "
         "x {deserialization, serialization}_schema x 5 versions x all_refs in {default, True, False} x ref_factory in {default, custom} x with_schema; plus programs with two distinct "
-        "classes sharing one type name. A case = (type signature, entry point, version, all_refs, ref_factory); distinct by hash; non-trivial when the schema contains a $ref or a $defs.")
+        "classes sharing one type name. A case = (type signature, entry point, version, all_refs, ref_factory); distinct by hash; non-trivial when the schema contains a $ref or a $defs."
+        ' Plus discriminated-union families (vf/disc.py) x entry types x side x version x all_refs x ref_factory: references through discriminated parents, discriminator mapping targets, extraction of alternatives / parents.')
 ASSUMPTIONS = ["meta-schemas bundled with jsonschema are the oracle for well-formedness; the dialect is read from the $schema URI (matched on the draft identifier)",
                "expected extraction set: a named type is 'used more than once' when a walk of the type that stops at an already seen named type meets it twice (recursion included)",
                "OpenAPI 3.0 documents have no meta-schema here: only references / vocabulary (C18) are checked for them"]
@@ -412,6 +413,8 @@ def check_multi_entry(env, prog, label):
 
 def run(env):
     harness.tag_errors(False)
+    from vf import disc
+    disc.run_family(env, disc.check_c17, env.n(96, 3000))  # discriminated-union families first (their own budget)
     rng = env.rng
     n = env.n(640, 20000)
     for j in range(n):
